@@ -211,3 +211,17 @@ def choice_codec(facts):
         else:
             raise Unrecognised(f"to_choice({i}) evaluates to {str(r)[:60]}")
     return enc, dec
+
+
+def reset_display_ok(facts):
+    """`Display for Reset` by abstract evaluation: exactly one `f.write_str("\x1b[0m")` and nothing else on the formatter (no padding:
+    any other Formatter method is not evaluable).  Returns (ok, what was found)."""
+    import abseval
+    rd = facts.body("anstyle", "<anstyle::reset::Reset as core::fmt::Display>::fmt")
+    writes = []
+    ev = abseval.Evaluator(facts, "anstyle", {"core::fmt::Formatter::<'a>::write_str": lambda a_: (writes.append(a_[1]), ("ok", ("unit",)))[1]})
+    try:
+        r = ev.call_fn("anstyle", rd["path"], [("sym", "reset"), ("sym", "f")])
+    except Unrecognised as ex:
+        return False, f"not evaluable: {ex}"
+    return writes == [("str", "\x1b[0m")] and r == ("ok", ("unit",)), f"writes {writes}, returns {r}"
